@@ -85,8 +85,8 @@ def cluster_list_enc(ips):
     return attr(10, S.cat(*[ip4_enc(i) for i in ips]) if ips else b'')
 
 
-def large_communities_enc(triples):
-    return attr(32, S.cat(*[S.cat(S.be(a, 4), S.be(b, 4), S.be(c, 4)) for (a, b, c) in triples]) if triples else b'')
+def large_communities_enc(triples, flags=None):
+    return attr(32, S.cat(*[S.cat(S.be(a, 4), S.be(b, 4), S.be(c, 4)) for (a, b, c) in triples]) if triples else b'', flags=flags)
 
 
 # ---- text forms
